@@ -19,6 +19,7 @@ import (
 //
 // Symbols: F = l.from, T = l.to, S = size of the rune just read, IN = l.input.
 func nrules(p *load.Program, f *fsm, s *oblig.Set) {
+	tokenRecordRule(p, s)
 	next := p.Method("lexer", "Lexer", "Next")
 	if next == nil {
 		s.Unk("ANCHOR", "lexer.(*Lexer).Next", "-", "method not found")
@@ -445,5 +446,41 @@ func tailRule(p *load.Program, f *fsm, s *oblig.Set, next *ssa.Function, fld map
 		} else {
 			s.Bad("N4", key, pos, fmt.Sprintf("at end of input the lexer yields %s, expected %s (EOL unless the last token is EOL, then EOF exactly once, then nothing)", got, c.want))
 		}
+	}
+}
+
+// tokenRecordRule (N9): a token is a plain record of what the lexer measured:
+// From() and To() hand back the bounds it was built with, whatever its text
+// is (the text of a string literal is not the text between its bounds, see
+// N1, so no bound may be derived from the text).
+func tokenRecordRule(p *load.Program, s *oblig.Set) {
+	mk := p.Func("types/token", "WithFromTo")
+	from := p.Method("types/token", "Type", "From")
+	to := p.Method("types/token", "Type", "To")
+	if mk == nil || from == nil || to == nil || len(mk.Params) != 4 {
+		s.Unk("ANCHOR", "token.WithFromTo / From / To", "-", "constructor or accessors not found")
+		return
+	}
+	pos := p.Pos(mk.Pos())
+	o := &absint.Oracle{}
+	in := absint.NewInterp(p.SSA, o)
+	tok, end := in.Run(mk, []absint.Val{
+		absint.NewVar("KIND", mk.Params[0].Type()), absint.NewVar("TEXT", mk.Params[1].Type()),
+		absint.NewVar("FROM", mk.Params[2].Type()), absint.NewVar("TO", mk.Params[3].Type())})
+	key := "token.Type / From and To hand back the bounds the token was built with"
+	if end != nil || o.Next() {
+		s.Unk("N9", key, pos, fmt.Sprintf("constructor could not be evaluated: %v", end))
+		return
+	}
+	f, e1 := in.Run(from, []absint.Val{tok})
+	t, e2 := in.Run(to, []absint.Val{tok})
+	if e1 != nil || e2 != nil {
+		s.Unk("N9", key, pos, "accessors could not be evaluated")
+		return
+	}
+	if absint.Key(f) == "FROM" && absint.Key(t) == "TO" {
+		s.OK("N9", key, pos, "From() = from, To() = to")
+	} else {
+		s.Bad("N9", key, pos, fmt.Sprintf("WithFromTo(kind, text, from, to).From() is %s and .To() is %s: error carets and anything else that locates a token read these bounds; they must be the measured ones (a bound computed from the text is wrong whenever the text is not the source text, as for string literals with escapes)", absint.Key(f), absint.Key(t)))
 	}
 }
